@@ -75,15 +75,22 @@ func (e *envelope) Sign(req *signature.SignRequest) ([]byte, error) {
 
 	// parse payload as jwt.MapClaims
 	// [jwt-go]: https://pkg.go.dev/github.com/dgrijalva/jwt-go#MapClaims
-	var payload jwt.MapClaims
-	if err = json.Unmarshal(req.Payload.Content, &payload); err != nil {
+	// The member values are kept as raw JSON so that they are signed exactly
+	// as given: decoding numbers into float64 would alter integers beyond
+	// 2^53.
+	var members map[string]json.RawMessage
+	if err = json.Unmarshal(req.Payload.Content, &members); err != nil {
 		return nil, &signature.InvalidSignRequestError{
 			Msg: fmt.Sprintf("payload format error: %v", err.Error())}
 	}
-	if payload == nil {
+	if members == nil {
 		// json.Unmarshal accepts the JSON value null for a map
 		return nil, &signature.InvalidSignRequestError{
 			Msg: "payload format error: payload must be a JSON object"}
+	}
+	payload := make(jwt.MapClaims, len(members))
+	for name, value := range members {
+		payload[name] = value
 	}
 
 	// JWT sign and get certificate chain
